@@ -1859,6 +1859,7 @@ func (c *DnsController) evictIdleDnsForwarders(now time.Time) {
 	nowNano := now.UnixNano()
 	idleNano := c.dnsForwarderIdleTTL.Nanoseconds()
 	var toClose []DnsForwarder
+	var toRetire []*cachedDnsForwarder
 
 	c.dnsForwarderCache.Range(func(key, value any) bool {
 		k, ok := key.(dnsForwarderKey)
@@ -1888,10 +1889,18 @@ func (c *DnsController) evictIdleDnsForwarders(now time.Time) {
 		}
 
 		if c.dnsForwarderCache.CompareAndDelete(k, entry) {
-			toClose = append(toClose, entry.forwarder)
+			// A query may have passed beginUse since the inFlight check above:
+			// retire closes now only if idle, else after the last in-flight query.
+			toRetire = append(toRetire, entry)
 		}
 		return true
 	})
+
+	for _, entry := range toRetire {
+		if err := entry.retire(); err != nil && c.log != nil {
+			c.log.WithError(err).Debugln("failed to close idle dns forwarder")
+		}
+	}
 
 	for _, forwarder := range toClose {
 		if forwarder == nil {
